@@ -84,26 +84,46 @@ func c04ResolveRoles(c *core.Ctx) *c04Roles {
 			}
 		}
 	}
-	// watch: calls a method of *serviceregistry.ServiceRegistry
-	var watches []*c04Fn
-	for _, fd := range decls {
-		if !c04PoolMethod(pkg, fd) {
-			continue
+	// watch: the ServerPool method the constructor calls whose reach talks to
+	// *serviceregistry.ServiceRegistry (listing, watcher creation — possibly split into helpers)
+	talksToRegistry := func(g *flow.Func, n ast.Node) bool {
+		call, ok := n.(*ast.CallExpr)
+		if !ok {
+			return false
 		}
-		talks := false
-		for _, call := range calls(fd.Body, true) {
+		fo, _ := c04Callee(pkg.TypesInfo, call).(*types.Func)
+		if fo == nil {
+			return false
+		}
+		if rv := fo.Type().(*types.Signature).Recv(); rv != nil {
+			if n, ok := c04Deref(rv.Type()).(*types.Named); ok && n.Obj().Pkg() != nil && n.Obj().Pkg().Path() == Mod+c04sr && n.Obj().Name() == "ServiceRegistry" {
+				return true
+			}
+		}
+		return false
+	}
+	var watches []*c04Fn
+	var ctor *ast.FuncDecl
+	for _, fd := range decls {
+		if fd.Recv == nil && fd.Name.Name == "NewServerPool" {
+			ctor = fd
+		}
+	}
+	seenW := map[*ast.FuncDecl]bool{}
+	if ctor != nil {
+		for _, call := range calls(ctor.Body, true) {
 			fo, _ := c04Callee(pkg.TypesInfo, call).(*types.Func)
 			if fo == nil {
 				continue
 			}
-			if rv := fo.Type().(*types.Signature).Recv(); rv != nil {
-				if n, ok := c04Deref(rv.Type()).(*types.Named); ok && n.Obj().Pkg() != nil && n.Obj().Pkg().Path() == Mod+c04sr && n.Obj().Name() == "ServiceRegistry" {
-					talks = true
-				}
+			wd := declOf(pkg, fo)
+			if wd == nil || seenW[wd] || !c04PoolMethod(pkg, wd) {
+				continue
 			}
-		}
-		if talks {
-			watches = append(watches, mk(fd))
+			seenW[wd] = true
+			if reachContains(funcOf(pkg, wd), 3, talksToRegistry) {
+				watches = append(watches, mk(wd))
+			}
 		}
 	}
 	r.watch = c04Pick(watches, "watchServers")
